@@ -3,6 +3,7 @@ mod codec;
 mod decoder;
 mod diag;
 mod gap;
+mod gsd;
 mod las;
 mod phyrx;
 mod prm;
@@ -32,6 +33,7 @@ fn engine(name: &str) -> Option<(fn(&mut Vec<String>, u64, bool), Box<dyn Execut
         "gap" => Some((gap::gen, Box::new(Stateless(gap::exec)))),
         "station" => Some((station::gen, Box::new(station::Exec::new()))),
         "prm" => Some((prm::gen, Box::new(prm::PrmExec::new()))),
+        "gsd" => Some((gsd::gen, Box::new(Stateless(gsd::exec)))),
         "las" => Some((las::gen, Box::new(las::Exec::new()))),
         "phyrx" => Some((phyrx::gen, Box::new(phyrx::Exec::new()))),
         _ => None,
